@@ -348,6 +348,12 @@ class SymNumpy(types.ModuleType):
 
     @staticmethod
     def array(obj, dtype=None, *a, **k):
+        try:
+            structured = dtype is not None and dtype is not symfloat and _np.dtype(dtype).names is not None
+        except TypeError:
+            structured = False
+        if structured:
+            return _np.array(obj, dtype, *a, **k)   # list of tuples into a structured dtype: numpy stores the objects
         if _has_sym(obj):
             if isinstance(obj, _np.ndarray):
                 return obj.copy() if k.get("copy", True) else obj
@@ -732,6 +738,29 @@ class SymRandom:
         self.calls.append(("seed", a, k))
 
 
+class SymRfn(types.ModuleType):
+    """numpy.lib.recfunctions for structured arrays with object fields."""
+
+    def __init__(self):
+        super().__init__("symrfn")
+
+    def __getattr__(self, name):
+        import numpy.lib.recfunctions as rfn
+        return getattr(rfn, name)
+
+    @staticmethod
+    def structured_to_unstructured(arr, dtype=None, copy=False, casting="unsafe"):
+        import numpy.lib.recfunctions as rfn
+        if arr.dtype.names and any(arr.dtype[n] == object for n in arr.dtype.names):
+            # documented semantics: the fields, in order, become the last axis
+            out = _np.empty(arr.shape + (len(arr.dtype.names),), dtype=object)
+            for j, n in enumerate(arr.dtype.names):
+                out[..., j] = arr[n]
+            return out
+        return rfn.structured_to_unstructured(arr, dtype=dtype, copy=copy, casting=casting)
+
+
+symrfn = SymRfn()
 symrandom = SymRandom()
 symnp = SymNumpy()
 
@@ -795,7 +824,7 @@ def patched(modules, extra=None):
     saved = []
     try:
         for m in modules:
-            for name, repl in (("np", symnp), ("logsumexp", logsumexp), ("logger", null_logger), ("float", symfloat)):
+            for name, repl in (("np", symnp), ("logsumexp", logsumexp), ("logger", null_logger), ("float", symfloat), ("rfn", symrfn)):
                 if name in m.__dict__ or name == "float":
                     saved.append((m, name, m.__dict__.get(name, _MISSING)))
                     setattr(m, name, repl)
